@@ -9,19 +9,19 @@ static void run_stored(void) {
   else if (g_kind == K_BIG) closure_Thread__start_T_BigCallable_int_ref_1__call(&g_stored_big);
   else if (g_kind == K_RUNNABLE) closure_Thread__start_1__call(&g_stored_runnable);
 }
-void tulz_verif_inst__plain_function(int *x) { g_calls++; g_call_arg = x; g_finished_at_call = g_thread->m_isFinished; }
+void tulz_verif_inst__plain_function(int *x) { g_calls++; g_call_arg = x; g_finished_at_call = FLAG(g_thread); }
 void BigCallable__op_call(struct BigCallable *self, int *x) {
-  g_calls++; g_call_arg = x; g_finished_at_call = g_thread->m_isFinished;
+  g_calls++; g_call_arg = x; g_finished_at_call = FLAG(g_thread);
   g_payload_ok = (self->payload[0] == g_payload0 && self->payload[7] == g_payload7);     /* reads the callable object */
 }
-void tulz_Runnable__run__virtual(struct tulz_Runnable *r) { g_run_calls++; g_deleted_before_run = (g_delete_calls > 0); g_finished_at_run = g_thread->m_isFinished; }
+void tulz_Runnable__run__virtual(struct tulz_Runnable *r) { g_run_calls++; g_deleted_before_run = (g_delete_calls > 0); g_finished_at_run = FLAG(g_thread); }
 void tulz_Runnable__delete(struct tulz_Runnable *r) { __CPROVER_assert(g_run_calls == 1, "C20 the Runnable is destroyed only after it ran"); g_delete_calls++; free(r); }
-static struct Thread *mkthread(void) { struct Thread *t = malloc(sizeof(*t)); __CPROVER_assume(t != 0); t->m_thread.id = 0; t->m_isFinished = 0; g_thread = t; g_calls = 0; g_run_calls = 0; g_delete_calls = 0; g_next_thread_id = 0; return t; }
+static struct Thread *mkthread(void) { struct Thread *t = malloc(sizeof(*t)); __CPROVER_assume(t != 0); t->m_thread.id = 0; FLAG(t) = 0; g_thread = t; g_calls = 0; g_run_calls = 0; g_delete_calls = 0; g_next_thread_id = 0; return t; }
 static void check_callable(struct Thread *t, int *x) {
   __CPROVER_assert(g_calls == 1, "C20 the callable is invoked exactly once");
   __CPROVER_assert(g_call_arg == x, "C20 the callable receives the caller's lvalue argument");
   __CPROVER_assert(!g_finished_at_call, "C20 isFinished() is false while the callable runs");
-  __CPROVER_assert(t->m_isFinished, "C20 isFinished() is true after the callable returned");
+  __CPROVER_assert(FLAG(t), "C20 isFinished() is true after the callable returned");
 }
 static void starter_fp(struct Thread *t, int *x) { Thread__start_T_fn_ptr_int_ref(t, tulz_verif_inst__plain_function, x); }
 static void starter_big(struct Thread *t, int *x) { struct BigCallable b; b.payload[0] = g_payload0; b.payload[7] = g_payload7; Thread__start_T_BigCallable_int_ref(t, b, x); }
@@ -29,7 +29,7 @@ void h_Thread_start_fp_early(void) { struct Thread *t = mkthread(); int x; g_ear
 void h_Thread_start_fp_late(void) {
   struct Thread *t = mkthread(); int x; g_early = 0;
   starter_fp(t, &x);                                   /* start() has returned; its frame is gone */
-  __CPROVER_assert(g_calls == 0 && !t->m_isFinished, "C20 isFinished() is false before the callable ran");
+  __CPROVER_assert(g_calls == 0 && !FLAG(t), "C20 isFinished() is false before the callable ran");
   run_stored(); check_callable(t, &x); CANARY; }
 void h_Thread_start_big_early(void) { struct Thread *t = mkthread(); int x; g_early = 1; starter_big(t, &x); check_callable(t, &x); __CPROVER_assert(g_payload_ok, "C20 the callable object invoked is a live copy"); CANARY; }
 void h_Thread_start_big_late(void) {
@@ -39,14 +39,14 @@ void h_Thread_start_big_late(void) {
 void h_Thread_join_waits(void) {
   struct Thread *t = mkthread(); int x; g_early = 0;
   starter_fp(t, &x); Thread__join(t);
-  __CPROVER_assert(g_calls == 1 && t->m_isFinished, "C20 join() returns only after the callable has returned"); CANARY; }
+  __CPROVER_assert(g_calls == 1 && FLAG(t), "C20 join() returns only after the callable has returned"); CANARY; }
 void h_Thread_start_runnable(void) {
   struct Thread *t = mkthread(); struct tulz_Runnable *r = malloc(sizeof(*r)); __CPROVER_assume(r != 0); _Bool e; g_early = e;
   Thread__start(t, r);
-  if (!g_early) { __CPROVER_assert(!t->m_isFinished, "C20 isFinished() is false before the Runnable ran"); run_stored(); }
-  __CPROVER_assert(g_run_calls == 1 && g_delete_calls == 1 && !g_deleted_before_run && !g_finished_at_run && t->m_isFinished,
+  if (!g_early) { __CPROVER_assert(!FLAG(t), "C20 isFinished() is false before the Runnable ran"); run_stored(); }
+  __CPROVER_assert(g_run_calls == 1 && g_delete_calls == 1 && !g_deleted_before_run && !g_finished_at_run && FLAG(t),
                    "C20 a Runnable is run once, then destroyed once, then the thread reports completion"); CANARY; }
 void h_Thread_accessors(void) {
-  struct Thread *t = mkthread(); _Bool f; t->m_isFinished = f;
+  struct Thread *t = mkthread(); _Bool f; FLAG(t) = f;
   __CPROVER_assert(Thread__isFinished(t) == f && Thread__isRunning(t) == !f && Thread__std_thread(t) == &t->m_thread, "C20 accessors report the completion flag");
   __CPROVER_assert(Thread__isJoinable(t) == 0, "C20 a thread that was never started is not joinable"); CANARY; }
